@@ -162,6 +162,9 @@ func c04Types(c *work.Ctx) {
 				continue
 			}
 			bv := blame(v, func(cv reflect.Value) bool {
+				if fatalPlaced(cv.Type(), 0) {
+					return false // a component that alone is a listed fatal shape is not executed here
+				}
 				w, f := c04RoundTrip(&stdCh, cv.Type(), cv.Interface())
 				if f != "" {
 					return false
